@@ -21,6 +21,9 @@ def run(ctx):
         model(ctx, edge2[7:], [0, 5], 0, "2-byte edge widths, every first draw")
     else:
         model(ctx, edge2[::2] + [257 + ctx.seed % 60000], [0], 0, "2-byte edge widths, every first draw")
+    # every width below 2^16 compositionally: the shape of (mask, byte count) for each width + the mask lemma for every draw
+    ctx.mc("MC_Randrange", cfg(constants={"WIDTHS": "<- AllBelow2p16", "STARTS": "{0}", "PAIRW": "0"}, invariants=["Shape", "MaskLemma"]),
+           label="MC_Randrange[every width 1..65535: Shape; MaskLemma over all 1- and 2-byte draws]")
     uni = Universe()
     mp = Mapper(uni)
     traces = []
@@ -39,7 +42,7 @@ def run(ctx):
             traces.append(t.to_json())
     ctx.cov["first_draws_tabulated"] = sum(256 for _ in ws1) + 65536 * len(ws2)
     t = Trace("generate_mask", uni)
-    t.raw(pure.ev_mask_table(70000 if thorough else 5000))
+    t.raw(pure.ev_mask_table(70000))      # generate_mask for every maxval below 2^16 (and beyond)
     traces.append(t.to_json())
     # big ranges: the shipped q, streams all-zero, all-ones, q-1, q, q+1, just above the mask, forced redraws
     sp = load_repo()
